@@ -51,7 +51,7 @@ def cases(tier, seed):
     for depth, ctxs in plan:
         n = sum(1 for _ in cat.catalogue(depth, None, ctxs))
         for a in range(0, n, 30):
-            out.append(("batch", depth, ctxs, a, min(n, a + 30)))
+            out.append(("batch", depth, ctxs, a, min(n, a + 30), tier))
     out.append(("seeds",))
     return out
 
@@ -62,7 +62,7 @@ def _uses_all(term):
     return any(n[0] == "all" for n in walk(term))
 
 
-def check_term(label, term, dicts, res, digest=None):
+def check_term(label, term, dicts, res, digest=None, light=False):
     wk, objk = make(term, "cached")  # keys()/fingerprint() never touch the cache
     wt, objt = make(term, "nocache")
     rows = []
@@ -132,7 +132,7 @@ def check_term(label, term, dicts, res, digest=None):
             if not f2.ok or f2.value != fp:
                 fail("fingerprint-changes-under-restriction", o, f"{fp!r} vs {f2!r} restricted={o2!r}")
         # junk keys
-        if not _uses_all(term):
+        if not _uses_all(term) and not light:
             for junk in JUNK:
                 oj = dict(copy.deepcopy(o))
                 oj.update(copy.deepcopy(junk))
@@ -227,10 +227,12 @@ def run_case(case):
                 )
         res["samples"].append({"hash_seed_digest": base, "fingerprints": n, "with_more_than_one_key": multi, "seeds": ["0", "1", "2", "random"]})
         return res
-    _, depth, ctxs, a, b = case
+    _, depth, ctxs, a, b = case[:5]
     for label, term, spec in itertools.islice(cat.catalogue(depth, None, ctxs), a, b):
         dicts = cat.dictionaries(spec)
-        fl = check_term(label, term, dicts, res)
+        # quick tier: junk-key and key-order perturbations on terms of depth <= 1 only (depth 2 keeps
+        # present-only, sufficiency, restriction and the all-pairs fingerprint function)
+        fl = check_term(label, term, dicts, res, light=(depth >= 2 and len(case) > 5 and case[5] == "quick"))
         res["failures"].extend(fl)
         if a == 0 and depth == 1 and len(res["samples"]) < 3:
             res["samples"].append({"label": label, "term": short(term, 300), "dictionaries": len(dicts), "example": dicts[-1]})
